@@ -13,14 +13,17 @@ Definition pri0 : list (nat * (Z * Z)) := map (fun p => (p, (0, 10)%Z)) (seq 0 8
 Definition cfg_pinned : config := mkConfig cls0 pri0 false true true false false false.
 (* HISTORY: wrapper repaired (5afd9f1), prior passing still thaws self, __setitem__ still transfers ids *)
 Definition cfg_repaired : config := mkConfig cls0 pri0 true true true false false false.
-(* /repo today: b8214a7 (prior passing works on a copy) and 6df133a (no id transfer to a caller's object) as well *)
+(* HISTORY: b8214a7 (prior passing works on a copy) and 6df133a (no id transfer to a caller's object) as well; deletion
+   unguarded, TuplePrior not freezable, no modification counter (before 6ba0708, b49160e, 29fc8b9) *)
 Definition cfg_fixed : config := mkConfig cls0 pri0 true false false false false false.
-(* PROPOSED: delattr guarded, tuple priors frozen with their owner, caches count modifications; see the three proposed_fixes of C13 *)
+(* /repo today: 6ba0708 delattr guarded, b49160e tuple priors frozen with their owner, 29fc8b9 caches count modifications *)
 Definition cfg_all : config := mkConfig cls0 pri0 true false false true true true.
 (* ... the applied repairs are switched on in the configuration the correspondence runs (breaks if a constant of
    Model.v is flipped back); the three proposed repairs are cfg_all below, selected by delattr_guarded, tuples_frozen,
    cache_counts_modifications *)
-Example current_is_fixed : wrapper_cleanup = true /\ derive_thaws = false /\ setitem_transfers = false.
+Example current_is_fixed :
+  wrapper_cleanup = true /\ derive_thaws = false /\ setitem_transfers = false /\
+  delattr_guarded = true /\ tuples_frozen = true /\ cache_counts_modifications = true.
 Proof. repeat split. Qed.
 (* both configurations start from the same empty heap with the eight priors of pri0 *)
 Definition init0 : state := mkState [] [] pri0.
@@ -295,7 +298,7 @@ Example redirect_last_underscore :
      Ok (AItems [(["pos"; "pos_0"], LPrior 0); (["w"], LPrior 1); (["pos"; "pos_1"], LPrior 2); (["pos_0_1"], LPrior 3)])].
 Proof. vm_compute. reflexivity. Qed.
 
-(* ------------------------------------------------------------------ the proposed repairs (switched off in Model.v) *)
+(* ------------------------------------------------------------------ today's code: all repairs applied *)
 Example all_repaired_cfg : all_repaired cfg_all.
 Proof. repeat split. Qed.
 
@@ -314,3 +317,22 @@ Example repaired_tuple_thaws_with_owner :
   = [Ok AUnit; Ok AUnit; Ok AUnit; Ok (ANat 2); Exn EAssertion; Exn EAssertion; Ok AUnit; Ok AUnit; Ok (ANat 3); Ok AUnit;
      Exn EAssertion; Ok (ANat 3)].
 Proof. vm_compute. reflexivity. Qed.
+
+(* the configuration the correspondence runs, for any class table and prior pool, satisfies the
+   hypothesis of the full theorem: no guard is left *)
+Lemma current_all_repaired : forall cl pr,
+  all_repaired (mkConfig cl pr wrapper_cleanup derive_thaws setitem_transfers delattr_guarded tuples_frozen
+                         cache_counts_modifications).
+Proof. intros. repeat split. Qed.
+
+Lemma coherent_current : forall cl pr,
+  coherent_everywhere (mkConfig cl pr wrapper_cleanup derive_thaws setitem_transfers delattr_guarded tuples_frozen
+                                cache_counts_modifications).
+Proof. intros. apply coherent_when_repaired. apply current_all_repaired. Qed.
+
+(* an unguarded history of today's code (modification below a frozen ancestor, tuple member, delattr) *)
+Example current_unguarded_history_is_coherent :
+  guardedb cfg_all h_stale init0 = false /\
+  snd (run cfg_all (h_stale ++ [OQuery 1 QCount]) init0)
+  = snd (run cfg_all h_stale init0) ++ [snd (run_query cfg_all 1 QCount (fresh (fst (run cfg_all h_stale init0))))].
+Proof. split; vm_compute; reflexivity. Qed.
